@@ -144,6 +144,13 @@ func (t *trzszTransfer) pipelineRecvHashAck(ctx context.Context, cancel context.
 				return
 			}
 
+			// every acknowledgement answers the block right after the last matching one; anything else
+			// means that a line was lost or repeated on the way and the two ends no longer agree
+			if hashAck.Step <= matchStep || hashAck.Step-matchStep > kPrefixHashStep {
+				cancel(simpleTrzszError("Hash step check [%d] after [%d]", hashAck.Step, matchStep))
+				return
+			}
+
 			if !hashAck.Match {
 				matchChan <- matchStep
 				return
